@@ -42,3 +42,17 @@ ENTRY = {
 from vlib.props_C05 import ENTRY as _E05
 ENTRY["streams"] = ENTRY["streams"] + [dict(_E05["streams"][0], seeds_quick=1)]
 ENTRY["monitor_sigs"] = list(ENTRY.get("monitor_sigs") or ["codec:"]) + ["qbftwire:honest_message_rejected", "qbftwire:honest_message_not_constructible", "qbftwire:value_hash_mismatch_accepted"]
+
+# Fifth session: core/signeddata.go and core/unsigneddata.go — the accessor laws of every implementation of core.SignedData
+# (Signature / SetSignature / MessageRoot / Clone / JSON) per fork version and blinded form: translator T-signeddata
+# (regenerated table, `every_signed_type_ok` by decide), generic model Model/SignedData.lean, theorems Props/C14SignedData.lean,
+# stream signeddata (every signed type and version from the New* constructors).
+from vlib import snippet_C14signeddata as _sd
+ENTRY["go_tools"] = ENTRY.get("go_tools", []) + _sd.GO_TOOLS
+ENTRY["translators"] = ENTRY.get("translators", []) + _sd.TRANSLATORS
+ENTRY["streams"] = ENTRY["streams"] + [_sd.STREAM]
+ENTRY.setdefault("lean_props_extra", []).append(_sd.EXTRA_LEAN)
+ENTRY["monitor_sigs"] = ENTRY["monitor_sigs"] + [m for m in _sd.MONITOR_SIGS if m not in ENTRY["monitor_sigs"]]
+ENTRY["trusted_base"] = ENTRY["trusted_base"] + _sd.TRUSTED_BASE
+ENTRY["assumptions"] = ENTRY["assumptions"] + _sd.ASSUMPTIONS
+ENTRY["level_text"] += _sd.LEVEL_TEXT
